@@ -14,6 +14,7 @@ import (
 	"regexp"
 	"sort"
 	"strings"
+	"syscall"
 	"time"
 )
 
@@ -57,9 +58,14 @@ const LocalID = "."
 type Universe struct {
 	Dir       string
 	TypesOnly bool
-	seq       int
-	Race      bool
-	Stats     struct {
+	GoCache   string // private build cache of this universe ("" = the default cache)
+
+	copiedBase bool
+	cacheMark  time.Time
+	batches    int
+	seq        int
+	Race       bool
+	Stats      struct {
 		Builds, Rebuilds, ProbeRuns int
 		BuildTime, ProbeTime        time.Duration
 	}
@@ -103,6 +109,7 @@ func (u *Universe) CompileOnly(cs []*Container, tags string) error {
 		for _, c := range cs {
 			_ = os.RemoveAll(filepath.Join(u.Dir, "g", c.Name))
 		}
+		u.TrimCache()
 	}()
 	var pkgs []string
 	for _, c := range cs {
@@ -331,6 +338,7 @@ func (u *Universe) BuildBatch(cs []*Container, tags string) error {
 		for _, c := range cs {
 			_ = os.RemoveAll(filepath.Join(u.Dir, "g", c.Name))
 		}
+		u.TrimCache()
 	}()
 	for _, c := range cs {
 		if err := u.write(c); err != nil {
@@ -423,7 +431,63 @@ func (u *Universe) write(c *Container) error {
 func (u *Universe) goEnv() []string {
 	env := os.Environ()
 	env = append(env, "GOFLAGS=-mod=mod", "GOPROXY=off", "GOSUMDB=off", "GOTOOLCHAIN=local")
+	if u.GoCache != "" {
+		env = append(env, "GOCACHE="+u.GoCache)
+	}
 	return env
+}
+
+// UsePrivateCache gives the universe its own Go build cache below dir, seeded with hard links
+// to the files of base (a cache holding the standard library, the runtime library and the fixture
+// packages). Generated packages are unique per batch, so their cache entries are useless
+// afterwards: TrimCache removes everything that is not shared with the base.
+func (u *Universe) UsePrivateCache(dir, base string) error {
+	_ = os.RemoveAll(dir)
+	if base != "" {
+		if _, err := os.Stat(base); err == nil {
+			if out, err := exec.Command("cp", "-al", base, dir).CombinedOutput(); err != nil {
+				_ = os.RemoveAll(dir)
+				if out2, err2 := exec.Command("cp", "-a", base, dir).CombinedOutput(); err2 != nil {
+					return fmt.Errorf("seeding the build cache: %v %s / %v %s", err, out, err2, out2)
+				}
+				u.copiedBase = true
+			}
+		}
+	}
+	if err := os.MkdirAll(dir, 0o755); err != nil {
+		return err
+	}
+	u.GoCache = dir
+	u.cacheMark = time.Now()
+	return nil
+}
+
+// TrimCache deletes the cache entries created since the cache was seeded.
+func (u *Universe) TrimCache() {
+	if u.GoCache == "" {
+		return
+	}
+	u.batches++
+	if u.batches%4 != 0 {
+		return
+	}
+	_ = filepath.Walk(u.GoCache, func(p string, info os.FileInfo, err error) error {
+		if err != nil || info.IsDir() {
+			return nil
+		}
+		if filepath.Base(p) == "trim.txt" || filepath.Base(p) == "README" {
+			return nil
+		}
+		if st, ok := info.Sys().(*syscall.Stat_t); ok && !u.copiedBase {
+			if st.Nlink > 1 {
+				return nil // shared with the base cache
+			}
+		} else if info.ModTime().Before(u.cacheMark) {
+			return nil
+		}
+		_ = os.Remove(p)
+		return nil
+	})
 }
 
 func (u *Universe) buildAndRun(cs []*Container, tags string, isMain bool) error {
@@ -632,4 +696,69 @@ func SortedKeys[V any](m map[string]V) []string {
 	}
 	sort.Strings(ks)
 	return ks
+}
+
+// WarmBaseCache builds the standard library, the runtime library, the fixture packages and the
+// probe (normal, -race and with the stub tag) into the cache directory base.
+func WarmBaseCache(base, workDir, repoDir string) error {
+	if err := os.MkdirAll(base, 0o755); err != nil {
+		return err
+	}
+	for _, variant := range []string{"normal", "types"} {
+		dir := filepath.Join(workDir, "warm-"+variant)
+		var u *Universe
+		var err error
+		if variant == "types" {
+			u, err = NewTypesOnlyUniverse(dir, repoDir)
+		} else {
+			u, err = NewUniverse(dir, repoDir)
+		}
+		if err != nil {
+			return err
+		}
+		u.GoCache = base
+		var sb strings.Builder
+		sb.WriteString("package main\n\nimport (\n")
+		if variant == "normal" {
+			sb.WriteString("\t\"fx/probe\"\n")
+		}
+		for _, l := range Libs {
+			fmt.Fprintf(&sb, "\t_ %q\n", l.Path)
+		}
+		sb.WriteString("\t_ \"github.com/gontainer/gontainer-helpers/v3/caller\"\n\t_ \"github.com/gontainer/gontainer-helpers/v3/copier\"\n\t_ \"github.com/gontainer/gontainer-helpers/v3/exporter\"\n\t_ \"github.com/gontainer/gontainer-helpers/v3/grouperror\"\n\t_ \"github.com/gontainer/gontainer-helpers/v3/container\"\n")
+		sb.WriteString("\t_ \"context\"\n\t_ \"errors\"\n\t_ \"fmt\"\n\t_ \"os\"\n\t_ \"reflect\"\n\t_ \"strconv\"\n)\n\nfunc main() {")
+		if variant == "normal" {
+			sb.WriteString(" probe.Main() ")
+		}
+		sb.WriteString("}\n")
+		cmdDir := filepath.Join(dir, "cmd", "warm")
+		if err := os.MkdirAll(cmdDir, 0o755); err != nil {
+			return err
+		}
+		if err := os.WriteFile(filepath.Join(cmdDir, "main.go"), []byte(sb.String()), 0o644); err != nil {
+			return err
+		}
+		variants := [][]string{{"build", "-o", filepath.Join(dir, "warm.bin"), "./cmd/warm"}}
+		if variant == "normal" {
+			variants = append(variants, []string{"build", "-race", "-o", filepath.Join(dir, "warm-race.bin"), "./cmd/warm"},
+				[]string{"build", "-tags", "gontainerstub", "-o", filepath.Join(dir, "warm-stub.bin"), "./cmd/warm"})
+		} else {
+			variants = append(variants, []string{"build", "-tags", "gontainerstub", "-o", filepath.Join(dir, "warm-stub.bin"), "./cmd/warm"})
+		}
+		for _, args := range variants {
+			cmd := exec.Command("go", args...)
+			cmd.Dir = dir
+			cmd.Env = u.goEnv()
+			if out, err := cmd.CombinedOutput(); err != nil {
+				return fmt.Errorf("warming the base cache (%v): %v\n%s", args, err, out)
+			}
+		}
+		_ = os.RemoveAll(dir)
+	}
+	return nil
+}
+
+// CatalogFingerprint changes whenever the fixture sources change (keys the base cache).
+func CatalogFingerprint() string {
+	return fmt.Sprintf("%d-%d-%d-%d", len(tplRec), len(tplLib), len(tplProbe), len(tplLibTypes)) + tplLib[:64]
 }
